@@ -167,7 +167,7 @@ def main():
                     if n <= 2:
                         # the closed forms for 2 / 3 nodes expand the weights ((1-a)(1-b), a + b - 2ab, ...): their coefficients
                         # are computed with an absolute error of a few u (1 + |a|)(1 + |b|) even where the exact weight cancels
-                        tol += 8 * C.U * sum(abs(x) for x in nodes[r]) * (1 + max(abs(ia), abs(ib))) ** n
+                        tol += 13 * C.U * sum(abs(x) for x in nodes[r]) * (1 + max(abs(ia), abs(ib))) ** n      # C04.specialize_comparator_f90_closed: 13 for every M
                     if exact_regime:
                         if got != mod[r][c]:
                             res.mismatch(routine, rc, str(got), str(mod[r][c]), "E regime: must be bit-exact")
